@@ -273,6 +273,31 @@ func (f *c02File) modelBlocks() string {
 	return sb.String()
 }
 
+// has64k: some member holds the largest legal payload, 65536 bytes (outside the Lean model's WF: payload < 65536).
+func (f *c02File) has64k() bool {
+	for _, n := range f.blen {
+		if n > 0xffff {
+			return true
+		}
+	}
+	return false
+}
+
+// endAfter is the exact End the property demands after a read that delivered the bytes up to logical position q
+// (q > 0, no EOF involved): the block that holds byte q-1 and the offset behind that byte; behind the last byte of
+// a 65536-byte block there is no such offset and the position is the start of the next member.
+func (f *c02File) endAfter(q int) (bgzf.Offset, bool) {
+	for i := range f.start {
+		if f.blen[i] > 0 && f.start[i] < q && q <= f.start[i]+f.blen[i] {
+			if k := q - f.start[i]; k <= 0xffff {
+				return bgzf.Offset{File: f.base[i], Block: uint16(k)}, true
+			}
+			return bgzf.Offset{File: f.base[i] + int64(f.csize[i])}, true
+		}
+	}
+	return bgzf.Offset{}, false
+}
+
 // translate is the oracle's reading of a virtual offset: block start + in-block offset, or the end of
 // the file for (fileLen, 0).
 func (f *c02File) translate(o bgzf.Offset) (int, bool) {
@@ -480,6 +505,9 @@ func genC02History(rnd *Rand, f *c02File, maxOps int) []c02Op {
 				}
 			default:
 				op.Block, op.Class = rnd.intn(f.blen[i]+1), "seek.random"
+			}
+			if op.Block > 0xffff { // Offset.Block is a uint16: the end of a 65536-byte block has no in-block offset
+				op.Block, op.Class = 0xffff, op.Class+".max-in-block"
 			}
 			if lastEOF {
 				op.Class += ".afterEOF"
@@ -747,6 +775,9 @@ func runC02(c *ctx, f *c02File, ops []c02Op, rd int, slow bool, procs int) []str
 				if p, ok := f.translate(lc.End); !ok || p != pos+len(exp) {
 					r.fail("c02.lastchunk.end."+bm, fmt.Sprintf("%s: End %v translates to %d (valid=%v), position after the bytes is %d", what, lc.End, p, ok, pos+len(exp)), in())
 				}
+				if want, ok := f.endAfter(pos + len(exp)); ok && e == nil && len(exp) > 0 && lc.End != want {
+					r.fail("c02.lastchunk.end.exact."+bm, fmt.Sprintf("%s: End %v, the offset behind the last byte returned is %v", what, lc.End, want), in())
+				}
 				if _, ok := f.offsetOf(pos); ok && len(exp) > 0 {
 					// Begin must be a seekable offset: a block start plus an offset inside that block
 					found := false
@@ -861,7 +892,7 @@ func checkC02(c *ctx) {
 		runtime.GOMAXPROCS(procs)
 		f := genC02File(c.rnd)
 		if h%10 == 9 {
-			f = genC02ExtremeFile(c.rnd, false) // hand-framed members at the limits of the format (payload <= 65535)
+			f = genC02ExtremeFile(c.rnd, true) // hand-framed members at the limits of the format, incl. payload 65536
 		}
 		if err := f.build(); err != nil {
 			r.fail("c02.build", err.Error(), c02Input{File: c02File{Blocks: f.Blocks}})
@@ -869,8 +900,15 @@ func checkC02(c *ctx) {
 		}
 		ops := genC02History(c.rnd, f, 40)
 		blocks, opsM := f.modelBlocks(), c02OpsModel(ops)
-		li := d.add("c02.run %s %s", blocks, opsM)
-		d.add("c02.flat %s %s", blocks, opsM)
+		li := -1
+		if f.has64k() {
+			// a member of 65536 payload bytes is outside the Lean model's domain (WF: payload < 65536; the model
+			// has no counterpart of txOffset's (NextBase, 0) there): judged by the oracle alone
+			r.hist("model-comparison.skipped.payload65536")
+		} else {
+			li = d.add("c02.run %s %s", blocks, opsM)
+			d.add("c02.flat %s %s", blocks, opsM)
+		}
 		// classification
 		hasSeek, touches := false, false
 		t := &flatTracker{f: f}
@@ -979,6 +1017,9 @@ func checkC02(c *ctx) {
 	}
 	r.note("trace inclusion (Hts.Model.ReadAhead): %d read-ahead runs, %d events (%d member loads) replayed", len(c02LtsCases), nev, nld)
 	for _, ru := range runs {
+		if ru.line < 0 {
+			continue
+		}
 		r.ModelOps += 2 * len(ru.impl)
 		c02Compare(r, fmt.Sprintf("C02.model.rd%d", ru.rd), d.lines[ru.line], ru.impl, model[ru.line], false)
 		c02Compare(r, fmt.Sprintf("C02.flatspec.rd%d", ru.rd), d.lines[ru.line+1], ru.impl, model[ru.line+1], true)
